@@ -4,7 +4,7 @@
 
    The command is modelled as a finite decision table.  A configuration fixes
    the kind of the single OBJECT argument and every option the property
-   quantifies over (10*5*2*2*2*3*2 = 2400 configurations).  What the operating
+   quantifies over (11*5*2*2*2*3*2 = 2640 configurations).  What the operating
    system, urllib and dulwich answer for an argument of a given kind is
    tabulated ([is_dash], [isfile], [isdir], [islink], [has_scheme], [lstat],
    [stat], [is_git_repo]); [identify_gen] transcribes the control flow of the
@@ -31,6 +31,8 @@ Inductive argkind :=
 | AGitRepo     (* a directory that dulwich opens as a git repository *)
 | AMissing     (* not "-", not an existing path, and urlparse finds no scheme ("", ":", "no/such/path", "-x") *)
 | ABadUrl      (* not an existing path, and urlparse itself raises ValueError ("https://[::1/x", "//[", NFKC netloc) *)
+| ABadRefsRepo (* a directory that dulwich opens as a git repository but whose references it cannot read
+                  (an empty packed-refs file makes it raise StopIteration; garbage in it, another error) *)
 | ARefusedUrl. (* has a scheme, not an existing path, but model.Origin(url) raises ValueError (>= 2048 bytes, not UTF-8) *)
 
 Inductive otype := TAuto | TContent | TDirectory | TOrigin | TSnapshot.   (* click.Choice of --type *)
@@ -64,9 +66,11 @@ Inductive obj :=
 | OOrigin            (* the origin whose URL is the argument string *)
 | OSnapshot          (* the snapshot of the git repository at the path *)
 | ONothing           (* nothing: the argument designates no object (kinds AMissing, ABadUrl) *)
-| ORefusedOrigin.    (* an origin whose URL the library refuses: no identifier exists (kind ARefusedUrl) *)
+| ORefusedOrigin     (* an origin whose URL the library refuses: no identifier exists (kind ARefusedUrl) *)
+| OUnreadableSnapshot. (* the snapshot of a repository whose references cannot be read: none (kind ABadRefsRepo) *)
 
-Inductive crash := CrTypeError | CrNotADirectory | CrFileNotFound | CrNotGitRepository | CrValueError.
+Inductive crash := CrTypeError | CrNotADirectory | CrFileNotFound | CrNotGitRepository | CrValueError
+                 | CrStopIteration.
 (* CrValueError: ValueError or a subclass of it (UnicodeEncodeError for a URL that is not valid UTF-8) *)
 
 Inductive outcome :=
@@ -78,6 +82,7 @@ Inductive outcome :=
 | Usage              (* click usage error, exit code 2 *)
 | Exit0              (* "SWHID match", exit code 0 *)
 | Exit1              (* "SWHID mismatch", exit code 1 *)
+| Silent             (* OLD code only: nothing printed, exit code 0 *)
 | Crash (c : crash). (* unhandled exception *)
 
 (* ------------------------------------------------------------------ *)
@@ -86,7 +91,8 @@ Inductive outcome :=
 Definition is_dash (k : argkind) : bool := match k with AStdin => true | _ => false end.
 (* os.path.isfile / isdir follow symbolic links *)
 Definition isfile (k : argkind) : bool := match k with AFile | ALinkFile => true | _ => false end.
-Definition isdir (k : argkind) : bool := match k with ADir | ALinkDir | AGitRepo => true | _ => false end.
+Definition isdir (k : argkind) : bool :=
+  match k with ADir | ALinkDir | AGitRepo | ABadRefsRepo => true | _ => false end.
 Definition islink (k : argkind) : bool := match k with ALinkFile | ALinkDir => true | _ => false end.
 (* urlparse(obj).scheme is non-empty *)
 Definition has_scheme (k : argkind) : bool := match k with AUrl | ARefusedUrl => true | _ => false end.
@@ -95,7 +101,9 @@ Definition origin_refused (k : argkind) : bool := match k with ARefusedUrl => tr
 (* urlparse(obj) raises ValueError (malformed authority) *)
 Definition urlparse_raises (k : argkind) : bool := match k with ABadUrl => true | _ => false end.
 (* dulwich.repo.Repo(path) succeeds *)
-Definition is_git_repo (k : argkind) : bool := match k with AGitRepo => true | _ => false end.
+Definition is_git_repo (k : argkind) : bool := match k with AGitRepo | ABadRefsRepo => true | _ => false end.
+(* repo.refs.as_dict() / get_symrefs() raise *)
+Definition refs_unreadable (k : argkind) : bool := match k with ABadRefsRepo => true | _ => false end.
 
 Inductive pathref := PArg | PReal.      (* the argument as given / os.path.realpath of it *)
 Inductive ptag := PBytes | PStr.        (* Python type of the [path] variable *)
@@ -105,7 +113,7 @@ Inductive fskind := FReg | FLnk | FDir | FMissing.
 Definition lstat (k : argkind) (p : pathref) : fskind :=
   match k, p with
   | AFile, _ => FReg
-  | ADir, _ | AGitRepo, _ => FDir
+  | ADir, _ | AGitRepo, _ | ABadRefsRepo, _ => FDir
   | ALinkFile, PArg => FLnk
   | ALinkFile, PReal => FReg
   | ALinkDir, PArg => FLnk
@@ -117,7 +125,7 @@ Definition lstat (k : argkind) (p : pathref) : fskind :=
 Definition stat (k : argkind) : fskind :=
   match k with
   | AFile | ALinkFile => FReg
-  | ADir | ALinkDir | AGitRepo => FDir
+  | ADir | ALinkDir | AGitRepo | ABadRefsRepo => FDir
   | AStdin | AUrl | AMissing | ABadUrl | ARefusedUrl => FMissing
   end.
 
@@ -162,7 +170,7 @@ Definition swhid_of_git_repo (k : argkind) : obj + crash :=
 Definition fs_object (c : cfg) : obj :=
   match arg c with
   | AFile => OPathContent
-  | ADir | AGitRepo => ODirAtPath
+  | ADir | AGitRepo | ABadRefsRepo => ODirAtPath
   | ALinkFile => if deref c then OTargetFile else OLinkText
   | ALinkDir => if deref c then ODirAtLinkTarget else OLinkText
   | AStdin => OStdin
@@ -181,6 +189,7 @@ Definition otype_eqb (a b : otype) : bool :=
 Definition designated_obj (c : cfg) : obj :=
   match arg c, ty c with
   | AGitRepo, TSnapshot => OSnapshot
+  | ABadRefsRepo, TSnapshot => OUnreadableSnapshot
   | _, _ => fs_object c
   end.
 
@@ -199,6 +208,7 @@ Definition natural_type (o : obj) : otype :=
   | OSnapshot => TSnapshot
   | ONothing => TAuto          (* no explicit type suits an argument that designates nothing *)
   | ORefusedOrigin => TOrigin
+  | OUnreadableSnapshot => TSnapshot
   end.
 
 (* In scope: --type auto, or the type of the designated object.  Hence
@@ -219,31 +229,35 @@ Definition in_scope_literal (c : cfg) : bool :=
   | TContent, (AFile | ALinkFile | AStdin) => true
   | TDirectory, (ADir | ALinkDir) => true
   | TOrigin, (AUrl | ARefusedUrl) => true
-  | TSnapshot, AGitRepo => true
+  | TSnapshot, (AGitRepo | ABadRefsRepo) => true
   | _, _ => false
   end.
 
 (* ------------------------------------------------------------------ *)
 (* The code                                                            *)
 
-(* Five behaviours of the code that were repaired in /repo; each is kept as a
+(* Six behaviours of the code that were repaired in /repo; each is kept as a
    switch so that the old code is available as a mutant of the model: *)
 Record variant := mkVariant {
   v_realpath_str : bool;   (* OLD: path = os.path.realpath(obj)  - a str, not the encoded path *)
   v_rectype_bug  : bool;   (* OLD: if not obj_type == ("auto" or "directory")  - i.e. obj_type != "auto" *)
   v_auto_follows : bool;   (* OLD: auto-detection by isfile/isdir only, which follow links *)
+  v_stop_swallowed : bool; (* OLD: results = zip(objects, map(identify_object, objects)) and the references read outside
+                              any try: dulwich's StopIteration is taken by zip/map for the end of the results *)
   v_origin_uncaught : bool;(* OLD: swhid_of_origin(obj) outside any try: the library's ValueError for a refused URL escapes *)
   v_rec_follows  : bool    (* OLD: `if recursive and not os.path.isdir(objects[0])` - follows links whatever --no-dereference says *)
 }.
 
-Definition current : variant := mkVariant false false false false false.
-Definition old_realpath : variant := mkVariant true false false false false.
-Definition old_rectype : variant := mkVariant false true false false false.
-Definition old_autolink : variant := mkVariant false false true false false.
-Definition old_originuncaught : variant := mkVariant false false false true false.
-Definition old_recfollows : variant := mkVariant false false false false true.
+Definition current : variant := mkVariant false false false false false false.
+Definition old_realpath : variant := mkVariant true false false false false false.
+Definition old_rectype : variant := mkVariant false true false false false false.
+Definition old_autolink : variant := mkVariant false false true false false false.
+Definition old_stopswallowed : variant := mkVariant false false false true false false.
+Definition old_originuncaught : variant := mkVariant false false false false true false.
+Definition old_recfollows : variant := mkVariant false false false false false true.
 
-Inductive res := ROk (o : obj) (excluded : bool) | RUsage | RCrash (c : crash).
+Inductive res := ROk (o : obj) (excluded : bool) | RUsage | RCrash (c : crash)
+               | RStop.   (* OLD code only: StopIteration raised inside map(...) *)
 
 Definition lift (r : obj + crash) (excluded : bool) : res :=
   match r with inl o => ROk o excluded | inr c => RCrash c end.
@@ -289,7 +303,11 @@ Definition identify_object (v : variant) (c : cfg) : res :=
             (* try: swhid_of_origin(obj) except ValueError: raise click.BadParameter("invalid origin URL") *)
             if origin_refused k then (if v_origin_uncaught v then RCrash CrValueError else RUsage)
             else ROk OOrigin false
-        | TSnapshot => lift (swhid_of_git_repo k) false
+        | TSnapshot =>
+            (* swhid_of_git_repo: try: refs = repo.refs.as_dict(); symrefs = repo.refs.get_symrefs()
+               except Exception: raise click.BadParameter("cannot read the references ...") *)
+            if is_git_repo k && refs_unreadable k then (if v_stop_swallowed v then RStop else RUsage)
+            else lift (swhid_of_git_repo k) false
         | TAuto => RUsage                                   (* "invalid object type"; unreachable *)
         end
   end.
@@ -299,7 +317,7 @@ Definition obj_eqb (a b : obj) : bool :=
   | OPathContent, OPathContent | OLinkText, OLinkText | OTargetFile, OTargetFile
   | OEmptyContent, OEmptyContent | OStdin, OStdin | ODirAtPath, ODirAtPath
   | ODirAtLinkTarget, ODirAtLinkTarget | OOrigin, OOrigin | OSnapshot, OSnapshot | ONothing, ONothing
-  | ORefusedOrigin, ORefusedOrigin => true
+  | ORefusedOrigin, ORefusedOrigin | OUnreadableSnapshot, OUnreadableSnapshot => true
   | _, _ => false
   end.
 
@@ -350,6 +368,9 @@ Definition identify_gen (v : variant) (c : cfg) : outcome :=
       match identify_object v c with
       | RUsage => Usage
       | RCrash cr => Crash cr
+      | RStop =>
+          (* OLD: `for obj, swhid in results` simply ends; `next(results)` under --verify raises StopIteration *)
+          if has_verify c then Crash CrStopIteration else Silent
       | ROk o ex =>
           match ver c with
           | VNone => Print o ex (fname c) false
@@ -363,6 +384,7 @@ Definition identify_old_rectype : cfg -> outcome := identify_gen old_rectype.
 Definition identify_old_autolink : cfg -> outcome := identify_gen old_autolink.
 Definition identify_old_recfollows : cfg -> outcome := identify_gen old_recfollows.
 Definition identify_old_originuncaught : cfg -> outcome := identify_gen old_originuncaught.
+Definition identify_old_stopswallowed : cfg -> outcome := identify_gen old_stopswallowed.
 
 (* ------------------------------------------------------------------ *)
 (* The specification                                                   *)
@@ -375,11 +397,13 @@ Definition rec_effective (c : cfg) : bool := recur c && is_dir_obj (fs_object c)
 Definition type_is_auto_or_directory (t : otype) : bool :=
   match t with TAuto | TDirectory => true | _ => false end.
 
-Definition is_nothing_obj (o : obj) : bool := match o with ONothing | ORefusedOrigin => true | _ => false end.
+Definition is_nothing_obj (o : obj) : bool :=
+  match o with ONothing | ORefusedOrigin | OUnreadableSnapshot => true | _ => false end.
 
 Definition spec (c : cfg) : outcome :=
   let (o, ex) := designated c in
-  (* what cannot be identified is a usage error ("cannot detect object type", "invalid origin URL") *)
+  (* what cannot be identified is a usage error ("cannot detect object type", "invalid origin URL", "cannot
+     read the references of git repository") *)
   if is_nothing_obj o then Usage
   (* only core SWHIDs can be given to --verify; an origin has none *)
   else if match ver c with VMatch => is_origin_obj o | _ => false end then Usage
@@ -438,6 +462,9 @@ Definition old_recfollows_class (c : cfg) : bool :=
    library's ValueError was not caught *)
 Definition old_originuncaught_class (c : cfg) : bool :=
   match arg c with ARefusedUrl => true | _ => false end.
+(* swh identify -t snapshot <repository with an empty packed-refs file>: nothing printed, exit 0 *)
+Definition old_stopswallowed_class (c : cfg) : bool :=
+  match arg c, ty c with ABadRefsRepo, TSnapshot => negb (recur c) | _, _ => false end.
 
 (* ------------------------------------------------------------------ *)
 (* Several OBJECTS in one invocation                                   *)
@@ -463,6 +490,7 @@ Fixpoint run_objects (v : variant) (c : cfg) (ks : list argkind) : list line * m
       | ROk o ex => let (ls, e) := run_objects v c ks' in ((o, ex, fname c, false) :: ls, e)
       | RUsage => ([], MUsageEnd)
       | RCrash cr => ([], MCrashEnd cr)
+      | RStop => ([], MDone)        (* OLD: the run stops WITHOUT an error; the following arguments are dropped *)
       end
   end.
 
@@ -491,6 +519,7 @@ Definition identify_many_gen (v : variant) (c : cfg) (ks : list argkind) : mout 
           | ROk o ex => MOut [] (if given_equals c0 o ex then MExit0 else MExit1)
           | RUsage => MOut [] MUsageEnd
           | RCrash cr => MOut [] (MCrashEnd cr)
+          | RStop => MOut [] (MCrashEnd CrStopIteration)
           end
         else let (ls, e) := run_objects v c ks in MOut ls e
   end.
@@ -504,6 +533,7 @@ Definition embed (o : outcome) : mout :=
   | Usage => MOut [] MUsageEnd
   | Exit0 => MOut [] MExit0
   | Exit1 => MOut [] MExit1
+  | Silent => MOut [] MDone
   | Crash cr => MOut [] (MCrashEnd cr)
   end.
 
@@ -518,6 +548,7 @@ Fixpoint spec_run (c : cfg) (ks : list argkind) : list line * mend :=
       | Usage => ([], MUsageEnd)
       | Exit0 => ([], MExit0)
       | Exit1 => ([], MExit1)
+      | Silent => ([], MDone)
       | Crash cr => ([], MCrashEnd cr)
       end
   end.
@@ -551,7 +582,7 @@ Definition in_scope_many (c : cfg) (ks : list argkind) : bool :=
 (* Enumeration                                                         *)
 
 Definition all_kinds : list argkind :=
-  [AFile; ADir; ALinkFile; ALinkDir; AStdin; AUrl; AGitRepo; AMissing; ABadUrl; ARefusedUrl].
+  [AFile; ADir; ALinkFile; ALinkDir; AStdin; AUrl; AGitRepo; AMissing; ABadUrl; ARefusedUrl; ABadRefsRepo].
 Definition all_types : list otype := [TAuto; TContent; TDirectory; TOrigin; TSnapshot].
 Definition all_bools : list bool := [true; false].
 Definition all_verifies : list verify := [VNone; VMatch; VNonMatch].
@@ -572,14 +603,15 @@ Definition all_cfgs : list cfg :=
 Definition crash_eqb (a b : crash) : bool :=
   match a, b with
   | CrTypeError, CrTypeError | CrNotADirectory, CrNotADirectory
-  | CrFileNotFound, CrFileNotFound | CrNotGitRepository, CrNotGitRepository | CrValueError, CrValueError => true
+  | CrFileNotFound, CrFileNotFound | CrNotGitRepository, CrNotGitRepository | CrValueError, CrValueError
+  | CrStopIteration, CrStopIteration => true
   | _, _ => false
   end.
 
 Definition outcome_eqb (a b : outcome) : bool :=
   match a, b with
   | Print o e s l, Print o' e' s' l' => obj_eqb o o' && Bool.eqb e e' && Bool.eqb s s' && Bool.eqb l l'
-  | Usage, Usage | Exit0, Exit0 | Exit1, Exit1 => true
+  | Usage, Usage | Exit0, Exit0 | Exit1, Exit1 | Silent, Silent => true
   | Crash c, Crash c' => crash_eqb c c'
   | _, _ => false
   end.
@@ -631,5 +663,12 @@ Example ex_refused_now : identify_model (mkCfg ARefusedUrl TAuto true true false
 Proof. vm_compute. reflexivity. Qed.
 Example ex_refused_old : identify_old_originuncaught (mkCfg ARefusedUrl TOrigin true true false VNone false) = Crash CrValueError.
 Proof. vm_compute. reflexivity. Qed.
-Example ex_count : length all_cfgs = 2400.
+(* swh identify -t snapshot <repository whose packed-refs file is empty> *)
+Example ex_badrefs_now : identify_model (mkCfg ABadRefsRepo TSnapshot true true false VNone false) = Usage.
+Proof. vm_compute. reflexivity. Qed.
+Example ex_badrefs_old : identify_old_stopswallowed (mkCfg ABadRefsRepo TSnapshot true true false VNone false) = Silent.
+Proof. vm_compute. reflexivity. Qed.
+Example ex_badrefs_auto : identify_model (mkCfg ABadRefsRepo TAuto true true false VNone false) = Print ODirAtPath false true false.
+Proof. vm_compute. reflexivity. Qed.
+Example ex_count : length all_cfgs = 2640.
 Proof. vm_compute. reflexivity. Qed.
